@@ -84,6 +84,10 @@ def do_get(world, op):
     path = world.get("paths", pi)
     if how == "data.get":
         return snap(Data(world.get("docs", di)).get(path, return_paths=rp))
+    if how == "data.get_parts":
+        # Data.get(*primitive parts): the path object is built inside the call
+        parts = [pt[1] for pt in world.term["paths"][pi][1]]
+        return snap(Data(world.get("docs", di)).get(*parts, return_paths=rp))
     if how == "shared_data.get":
         return snap(world.get("datas", di).get(path, return_paths=rp))
     return snap(path.get_data(_doc(world, di, how), return_paths=rp))
